@@ -7,6 +7,10 @@ Line-protocol driver for the C03 models (metric block merge + family compaction)
   flush <metric>=<blk> <metric>=<blk> ...     -> ok L0:<files> L1:<files>
   compact <threshold> <maxFileSize> <k:len,k:len,...|-> [failAt]  -> <skipped|moved|merged|fail> L0:<files> L1:<files>
   view <metric>                               -> ok S:<ids> F:<id:ty,...> V:<s/f/t=v ...>
+  dmerge <dmg;dmg;...> <blk> <blk> ...        -> ok <canonical blk> | err merge      (damaged inputs; one <dmg> per block:
+                                                 `-` intact, `h` header unreadable, `b<hk>,<hk>` series buckets unreadable)
+  mergew <blk> <blk> ...                      -> hang | ok <canonical blk> | err merge  (slot loop with a uint16 variable:
+                                                 a decoded input whose range ends at slot 65535 never leaves the loop)
 
   <blk>   = <fields>#<start>_<end>#<series>|<series>...      fields = id:ty,id:ty
   <series>= sid/fid@slot=val,slot=val/fid@...
@@ -19,6 +23,7 @@ iteration order; the harness checks membership on the implementation side).
 import LinVerif.Util.Proto
 import LinVerif.Model.Compact
 import LinVerif.Model.BlockWriter
+import LinVerif.Model.MergeLoop
 import LinVerif.Generated.C03
 
 namespace LinVerif.Driver.C03
@@ -141,8 +146,37 @@ def parseSizes (w : String) : Option (List (Nat × Nat)) :=
     let n ← b.toNat?
     some (k, n))
 
+def parseDmg (w : String) : Option MergeLoop.Damage.Dmg :=
+  if w = "-" then some MergeLoop.Damage.Dmg.none
+  else if w = "h" then some { header := true, buckets := [] }
+  else if w.startsWith "b" then
+    ((w.drop 1).toString.splitOn ",").mapM (fun (x : String) => x.toNat?) |>.map (fun ks => ({ header := false, buckets := ks } : MergeLoop.Damage.Dmg))
+  else none
+
+/-- does some series of the block carry data for one of the block's fields (then a decoder is
+positioned on the block's range and the slot loop runs over it) -/
+def hasData (b : Blk) : Bool :=
+  b.series.any (fun p => b.fields.any (fun fm => (lookup p.2 fm.1).isSome))
+
 def step (st : Family Int) (ws : List String) : Family Int × String :=
   match ws with
+  | "dmerge" :: spec :: rest =>
+    match (spec.splitOn ";").mapM parseDmg, rest.mapM parseBlock with
+    | some ds, some (b :: bs) =>
+      if ds.length ≠ (b :: bs).length then (st, "bad-op") else
+      let tol := Generated.C03.scannerToleratesEmptyBucket
+      let bds := (b :: bs).zip ds
+      if MergeLoop.Damage.mergeFails tol bds then (st, "err merge")
+      else (st, "ok " ++ showBlock (MergeLoop.Damage.mergeBlocks tol aggInt bds))
+    | _, _ => (st, "bad-op")
+  | "mergew" :: rest =>
+    match rest.mapM parseBlock with
+    | some (b :: bs) =>
+      let tol := Generated.C03.scannerToleratesEmptyBucket
+      if mergeFails tol (b :: bs) then (st, "err merge")
+      else if Generated.C03.slotLoopWraps && (b :: bs).any (fun x => x.stop == 65535 && hasData x) then (st, "hang")
+      else (st, "ok " ++ showBlock (mergeBlocks tol aggInt (b :: bs)))
+    | _ => (st, "bad-op")
   | "merge" :: rest =>
     match rest.mapM parseBlock with
     | some (b :: bs) =>
